@@ -1137,6 +1137,15 @@ def norm(toks):
             out.append((t[0], frozenset(norm(b) for b in t[1])))
         else:
             out.append(t)
+    # the content of a sub-encoder copied piece by piece (a loop over its chunks, then the rest) is one body:  LOOP{OPENBODY}* OPENBODY+  ->  OPENBODY
+    def only_body(t_):
+        return t_ == ('OPENBODY',) or (t_[0] == 'LOOP' and t_[1] and all(all(x_ == ('OPENBODY',) for x_ in b_) for b_ in t_[1]))
+    merged = []
+    for t in out:
+        if only_body(t) and merged and merged[-1] == ('OPENBODY',):
+            continue
+        merged.append(('OPENBODY',) if only_body(t) else t)
+    out = merged
     # enc: LENDET, OPENBODY -> OPEN ; dec: LENDET, CHILD[, SKIP] -> OPEN ; LENDET, SKIP -> OPEN (unknown)
     res = []
     i = 0
